@@ -1,12 +1,22 @@
 #!/bin/bash
-# seedmatrix.sh: every recorded seeded change against the quick tier of its property's check (sequential: each one patches /repo)
-cd /verif
-out=/var/tmp/vp-seedmatrix.txt; : > $out
+# seedmatrix.sh: every recorded seeded change against the quick tier of its property's check (sequential: each one patches the repository).
+# In /verif it patches /repo itself (nothing else may run meanwhile). As a background run it works on copies:
+#   vp run --with-repo --timeout 3h -- ./seedmatrix.sh     (snapshot of /verif + snapshot of /repo in $VP_RUN_REPO; result in ./seedmatrix.txt there)
+HERE="$(cd "$(dirname "${BASH_SOURCE[0]}")" && pwd)"
+cd $HERE
+export GOFLAGS=-mod=mod GOPROXY=off
+if [ -n "${VP_RUN_REPO:-}" ]; then
+  export SEED_REPO=$VP_RUN_REPO
+  go mod edit -replace github.com/criyle/go-sandbox=$VP_RUN_REPO
+  ./vcheck setup >/dev/null
+fi
+out=$HERE/seedmatrix.txt; : > $out
 for d in seeded/*/; do
   n=$(basename $d); id=${n%%-*}
   [ -f $d/patch.diff ] || continue
   case $n in C09-B) echo "$n skipped (needs 8 GiB)" >> $out; continue;; esac
-  r=$(./seedrerun.sh $n $id quick 2>&1 | tail -1)
+  [ -n "${SEED_ONLY:-}" ] && ! echo "$n" | grep -q -E "$SEED_ONLY" && continue
+  r=$(SEED_NOTE="matrix run $(git -C $HERE rev-parse --short HEAD)" ./seedrerun.sh $n $id quick 2>&1 | tail -1)
   echo "$n $r" >> $out
 done
 echo DONE >> $out
